@@ -164,6 +164,13 @@ def family_admm(ctx, r, exact, n, opaque=False):
             ctx.violation(key, 'iterates differ: ' + d, desc_of(p, n=n))
             ok = False
         ok = check_callback(ctx, p, n, log_o, x_o, 'admm_linearized') and ok
+        if n >= 2:
+            # z and u are locals of admm_linearized: a second call restarts them at zero
+            # (C11.admm_resume_needs_state); recorded, not a violation
+            q = dict(p, x0=impl_admm(p, 'opt', n // 2)[2])
+            st_r, _, x_r = impl_admm(q, 'opt', n - n // 2)
+            ctx.hit('excluded/admm_linearized n then m (z, u restart at zero) vs n+m: ' +
+                    ('differs' if st_r != 'ok' or sl.arrays_differ([x_r], [x_o]) else 'same'))
         start_distinct(ctx, p, n, 'admm', 'admm_linearized', log_o, lambda: impl_admm(p, 'opt', n, True)[:2])
     else:
         ctx.err(st_o.split(':')[1])
@@ -1116,6 +1123,17 @@ def acc_steps(mode, g, tau, sigma, k):
 
 def gen_pdhg_acc(r, exact):
     kind, L = sl.operator_zoo(r)
+    if kind == 'matrix' and r.random() < 0.3:
+        import odl
+        # non-linear: L.derivative(x).adjoint is taken at the x of the iteration (small data: x -> x^2)
+        kind, L = 'matrix*square', L * odl.PowerOperator(L.domain, 2)
+        F = sl.functional_zoo(r, L.domain, exact=exact)
+        G = sl.functional_zoo(r, L.range, exact=exact)
+        return dict(solver='pdhg_acc', opkind=kind, L=L, f=F.f, g=G.f, F=F, G=G, fk=F.name, gk=G.name,
+                    tau=r.choice([0.0625, 0.03125]), sigma=r.choice([0.0625, 0.125]),
+                    theta=r.choice([None, 1.0, 0.5]), mode=r.choice(['primal', 'dual', 'none']),
+                    gam=r.choice([0.5, 1.0, 2.0]), sq_exact=False, nmax=3,
+                    x0=sl.dy_vec(r, size_of(L.domain), 8, 8))
     F = sl.functional_zoo(r, L.domain, exact=exact)
     G = sl.functional_zoo(r, L.range, exact=exact)
     mode = r.choice(['primal', 'primal', 'dual', 'dual', 'none'])
@@ -1144,7 +1162,7 @@ def family_pdhg_acc(ctx, r, exact, n, opaque=False):
     p = gen_pdhg_acc(r, exact)
     p.update(cseed=r.cseed, exact=exact, opaque=opaque)
     mode, g, L = p['mode'], p['gam'], p['L']
-    n = 1 if (p['sq_exact'] and r.random() < 0.7) else min(n, 8)
+    n = 1 if (p['sq_exact'] and r.random() < 0.7) else min(n, p.get('nmax', 8))
     kw = {} if p['theta'] is None else {'theta': p['theta']}
     theta = 1.0 if p['theta'] is None else p['theta']
     if mode == 'primal':
@@ -1176,10 +1194,12 @@ def family_pdhg_acc(ctx, r, exact, n, opaque=False):
         check_callback(ctx, p, n, log, full[0], 'pdhg(accelerated)')
     sig = ('model', 'pdhg_acc', mode, p['opkind'], p['fk'], p['gk'], steps_class(exact), n)
     nt = st == 'ok' and nontrivial(log, p['x0'])
-    A, At = wire_op(L)
-    base = 'pdhgacc A={} At={} ff={} gf={} theta={} gp={} gd={}'.format(
+    nl = p['opkind'] == 'matrix*square'
+    A, At = wire_op(L.left if nl else L)
+    base = 'pdhgacc A={} At={} ff={} gf={} theta={} gp={} gd={}{}'.format(
         fmat(A), fmat(At), FSPEC[p['fk']](p['F']), FSPEC[p['gk']](p['G']), fs(theta),
-        fs(g) if mode == 'primal' else 'none', fs(g) if mode == 'dual' else 'none')
+        fs(g) if mode == 'primal' else 'none', fs(g) if mode == 'dual' else 'none', ' sq=1' if nl else '')
+    ctx.hit('model/pdhg_acc/' + ('nonlinear-op' if nl else 'linear-op'))
 
     def extras(st_, out, inexact):
         e = {'x': out[0], 'xr': out[1], 'y': out[2], 'tau': out[3][:1], 'sigma': out[3][1:]} \
@@ -1297,6 +1317,80 @@ def family_cg_restart(ctx, r, exact, n, opaque=False):
                  {'x': end, '_prefix_if_model_stopped': True, '_inexact': True} if st == 'ok' else {})]
 
 
+def family_kaczmarz_random(ctx, r, exact, n, opaque=False):
+    """kaczmarz(random=True): the permutations come from numpy's GLOBAL generator, which survives
+    between calls.  Oracle (real code only): seed, run n+m sweeps; seed again, run n sweeps, then m
+    more WITHOUT re-seeding: same iterates (C11.resume_kaczmarz_random); re-seeding in between is the
+    excluded class.  Model: KaczmarzP.runOrd with the permutations numpy drew, fresh and resumed."""
+    from odl.solvers import kaczmarz
+    p = gen_kaczmarz(r, exact, opaque)
+    p.update(solver='kaczmarz_random', cseed=r.cseed, exact=exact, opaque=opaque)
+    ops, dom, m = p['ops'], p['ops'][0].domain, p['m']
+    n = min(n, 8)
+    npseed = r.randint(0, 2 ** 31 - 1)
+    a = r.randint(0, n)
+    key = 'kaczmarz(random=True, {}) resume n+m with the numpy generator running on ranges={} proj={}'.format(
+        p['cb'], p['opkind'], p['pspec'])
+
+    def call(x_start, k, mk=unflat):
+        x = mk(dom, x_start)
+        rec = Recorder()
+        st, _ = guarded(kaczmarz, ops, x, [mk(o.range, b) for o, b in zip(ops, p['rhs'])], k,
+                        omega=p['omega'], projection=p['proj'], random=True, callback=rec,
+                        callback_loop=p['cb'])
+        return st, rec.iterates, flat(x).copy()
+    np.random.seed(npseed)
+    orders = [[int(i) for i in np.random.permutation(range(m))] for _ in range(n)]
+    np.random.seed(npseed)
+    st, log, full = call(p['x0'], n)
+    np.random.seed(npseed)
+    st1, log1, mid = call(p['x0'], a)
+    st2, log2, end = call(mid, n - a, sl.unflat_distinct if r.random() < 0.3 else unflat)
+    ctx.hit('oracle/resume-splits')
+    if st != 'ok':
+        ctx.err(err_kind(st))
+    elif st1 != 'ok' or st2 != 'ok':
+        viol(ctx, key, 'split run {}+{} failed ({}, {})'.format(a, n - a, st1, st2), p, n=n, split=[a, n - a])
+    else:
+        d = sl.arrays_differ([end], [full]) or sl.arrays_differ(list(log1) + list(log2), log)
+        if d:
+            viol(ctx, key, '{}+{} sweeps differ from {}: {}'.format(a, n - a, n, d), p, n=n, split=[a, n - a])
+        want = n * (m if p['cb'] == 'inner' else 1)
+        if len(log) != want or (n and np.any(log[-1] != full)):
+            viol(ctx, 'kaczmarz(random=True, {}) callback ranges={}'.format(p['cb'], p['opkind']),
+                 'callback called {} times, expected {}; last vs result {}'.format(
+                     len(log), want, None if not log else (log[-1], full)), p, n=n)
+        np.random.seed(npseed)
+        call(p['x0'], a)
+        np.random.seed(npseed)                  # the excluded class: generator re-seeded between the calls
+        st3, _, end3 = call(mid, n - a)
+        ctx.hit('excluded/kaczmarz random order, generator re-seeded between the calls: ' +
+                ('differs' if st3 != 'ok' or sl.arrays_differ([end3], [full]) else 'same'))
+    sig = ('model', 'kaczmarz_random', p['opkind'], p['pspec'], p['cb'], steps_class(exact), n)
+    nt = st == 'ok' and nontrivial(log, p['x0'])
+    mats = [wire_op(o) for o in ops]
+    rid = [min(i for i in range(m) if ops[i].range == o.range) for o in ops]
+    om = p['omega'] if isinstance(p['omega'], list) else [p['omega']] * m
+    fields = ' '.join('A{0}={1} At{0}={2} rhs{0}={3}'.format(
+        i, fmat(mats[i][0]), fmat(mats[i][1]), fl(p['rhs'][i])) for i in range(m))
+
+    def line(x_start, k, os):
+        return 'kaczmarz m={} {} omega={} proj={} rid={} cb={} x0={} n={} orders={}'.format(
+            m, fields, fl(om), p['pspec'], ','.join(map(str, rid)), p['cb'], fl(x_start), k,
+            ';'.join(','.join(map(str, o)) for o in os))
+    cases = []
+    if n >= 1:
+        cases.append(Case(desc_of(p, n=n, npseed=npseed), sig if nt else None,
+                          line(p['x0'], n, orders), st, log, {'x': full} if st == 'ok' else {}))
+        ctx.hit('model/kaczmarz_random/fresh')
+    if st == 'ok' and st1 == 'ok' and 0 < a < n:
+        cases.append(Case(desc_of(p, n=n - a, resumed_after=a, npseed=npseed),
+                          sig + ('resumed',) if nt else None, line(mid, n - a, orders[a:]), st2, log2,
+                          {'x': end} if st2 == 'ok' else {}))
+        ctx.hit('model/kaczmarz_random/resumed(remaining orders)')
+    return cases
+
+
 FAMILIES = {
     'admm': family_admm,
     'adupdates': family_adupdates,
@@ -1312,6 +1406,7 @@ FAMILIES = {
     'proxgrad_lam': family_proxgrad_lam,
     'pdhg_acc': family_pdhg_acc,
     'cg_restart': family_cg_restart,
+    'kaczmarz_random': family_kaczmarz_random,
 }
 EXPECTED_BRANCHES = [
     'model/admm/opt', 'model/admm/simple', 'model/adupdates/inner', 'model/adupdates/outer',
@@ -1340,6 +1435,8 @@ EXPECTED_BRANCHES = [
     'resume/equal-distinct-space/pdhg_acc',
     'model/cg_restart/cg', 'model/cg_restart/cgn', 'model/cg_restart/split=trivial',
     'model/cg_restart/split=proper', 'resume/equal-distinct-space/cg_restart',
+    'model/kaczmarz_random/fresh', 'model/kaczmarz_random/resumed(remaining orders)',
+    'model/pdhg_acc/nonlinear-op', 'model/pdhg_acc/linear-op',
 ]
 OPAQUE_FAMILIES = ('admm', 'adupdates', 'dpdc', 'proxgrad', 'pdhg')
 
